@@ -65,11 +65,15 @@ def cases(chk):
         if i % 3 == 1:
             cs.append(dict(base, kind="marginal_freq", n_samples=rng.choice([1, 2, 3, 5, 40]), seed=rng.randrange(1 << 30),
                            via=rng.choice(["direct", "entry"])))
+    # crash points: an earlier construction with the same callables was aborted by the k-th callback call raising (caught by the caller)
+    for c0 in [c for c in cs if c["kind"] in ("function", "marginal")][::2 if not thorough else 1]:
+        cs.append(dict(c0, pre_fault=rng.choice([1, 2, 3, 5, 8])))
     return cs
 
 
 def run(chk):
-    chk.mc("Loaders", "MC_Loaders.cfg", required=["ResolveDegree", "DeleteColumn", "CreateJdd"])
+    chk.mc("Loaders", "MC_Loaders.cfg", required=["ResolveDegree", "DeleteColumn", "CreateJdd", "TryCandidate", "Restore"])
+    chk.mc("Loaders", "MC_Loaders_rejectleak.cfg", expect_violation="C06_Law")   # deviation: a rejected candidate input leaves something behind
     chk.mc("Loaders", "MC_Loaders_accum.cfg", expect_violation="C06_Law")
     cs = cases(chk)
     traces = [L.execute(c) for c in cs]
